@@ -110,8 +110,8 @@ end
 def hex16 (n : Nat) : String :=
   String.ofList ((List.range 16).map fun i => Sexp.hexDigit ((n >>> (4 * (15 - i))) % 16))
 
-def floatBits (f : Float) : String :=
-  if f.isNaN then "7ff8000000000000" else hex16 f.toBits.toNat
+def floatBits (b : F64) : String :=
+  if F64.isNaN b then "7ff8000000000000" else hex16 b.toNat
 
 /-- canonical rendering of a value relative to a store (cell contents are read from it) -/
 partial def showVal (st : St) (depth : Nat) : Val → String
